@@ -4,6 +4,7 @@ import (
 	"context"
 	"database/sql"
 	"fmt"
+	"sync"
 
 	"github.com/Factom-Asset-Tokens/factom"
 	_ "github.com/mattn/go-sqlite3"
@@ -27,6 +28,8 @@ type Pegnetd struct {
 	LastAveragesHeight uint32                    // Height of the current cache
 
 	lastAveragesDataHeights map[fat2.PTicker][]uint32 // Heights of the values in LastAveragesData
+
+	averagesMu sync.Mutex // guards the LastAverages* fields above
 }
 
 func NewPegnetd(ctx context.Context, conf *viper.Viper) (*Pegnetd, error) {
